@@ -1,7 +1,7 @@
 (* C03, part 1: the order of the phases.  Each phase function emits callback
    events of its own tag only; an iteration is the concatenation of its
    phases; uv_run is an optional timer pass followed by iterations. *)
-From UV Require Import Lib.Base Model.Heap Model.Timer Model.LoopCore Proofs.C03Base.
+From UV Require Import Lib.Base Model.Heap Model.Timer Model.LoopCore Proofs.C03Base Proofs.UvRunAlt.
 
 Definition T45 (t : nat) : Prop := t = 4%nat \/ t = 5%nat.
 
@@ -231,7 +231,7 @@ Theorem uv_run_trace fuel s beh mode s' evs :
     Forall phase_word (map cb_tags its) /\
     s' = set_stop sb false.
 Proof.
-  unfold uv_run, uv_start. intros H.
+  rewrite uv_run_alt_eq. unfold uv_run_alt, uv_start. intros H.
   set (r := loop_alive s) in *.
   set (s0 := if r then s else update_time s) in *.
   destruct (Nat.eqb mode 0 && r && negb (stop_flag s0)) eqn:Ec.
@@ -245,7 +245,7 @@ Proof.
       * intros Hm. apply Nat.eqb_neq in Hm. rewrite Hm in Ec. discriminate.
       * eapply loop_iters_words; eauto.
     + inversion H; subst.
-      exists e0, [], r, s1, s1. repeat split; auto.
+      eexists e0, [], _, s1, s1. split; [reflexivity|]. repeat split; auto.
       * rewrite <- (snd_eq _ _ _ E0). apply l_run_timers_tags.
       * intros Hm. apply Nat.eqb_neq in Hm. rewrite Hm in Ec. discriminate.
       * constructor.
@@ -258,5 +258,5 @@ Proof.
       * constructor.
       * eapply loop_iters_words; eauto.
     + inversion H; subst.
-      exists [], [], r, s0, s0. repeat split; auto; constructor.
+      eexists [], [], _, s0, s0. split; [reflexivity|]. repeat split; auto; constructor.
 Qed.
